@@ -1020,7 +1020,9 @@ def grid_layout(context, box, bottom_space, skip_stack, containing_block,
     # TODO: Support safe/unsafe.
     justify_content = set(box.style['justify_content'])
     x = box.content_box_x()
-    free_width = max(0, box.width - sum(size for size, _ in columns_sizes))
+    free_width = max(0, (
+        box.width - sum(size for size, _ in columns_sizes) -
+        (len(columns_sizes) - 1) * column_gap))
     columns_positions = []
     columns_number = len(columns_sizes)
     if justify_content & {'center'}:
